@@ -202,7 +202,7 @@ theorem step_hinv (div : DivFn) (s s' : St) (a : Act) (h : HInv s) (hs : step di
     obtain ⟨_, rfl⟩ := step_stop hs
     exact h.of_same ⟨fun _ => rfl, rfl, rfl, rfl, rfl, rfl, fun _ => rfl⟩
   | graceful => obtain ⟨_, rfl⟩ := step_graceful hs; exact h.of_same (same_of_eq rfl rfl rfl rfl rfl rfl rfl)
-  | top c => exact h.of_same (same_stepTop div s s' c (step_top hs).2)
+  | top c => exact h.of_same (same_stepTop div s s' c (step_top hs).2.1)
   | «calc» => obtain ⟨_, rfl⟩ := step_calc hs; exact h.of_same (same_stepCalc div s)
   | recalc => obtain ⟨_, rfl⟩ := step_recalc hs; exact h.of_same (same_stepRecalc div s)
   | endRound =>
